@@ -159,6 +159,7 @@ class World:
         self.atoms = {}       # name -> dict(kind, lo, hi, defn, comp, partner, rel)
         self.n = 0
         self.events = []      # arithmetic events (add/sub families) in creation order
+        self.products = {}
         self._exp = {}
 
     def new(self, prefix, kind, lo, hi, **kw):
@@ -297,6 +298,8 @@ GPR = ['rax', 'rbx', 'rcx', 'rdx', 'rsi', 'rdi', 'rbp', 'rsp'] + ['r%d' % i for 
 
 
 class X86Machine:
+    RET = 'rax'
+    ARCH = 'x86_64'
     """evaluates one routine on every control-flow path; `args` describes the arguments: 'ptr' or 'int' per position;
     `alias` maps argument index -> argument index whose object it shares"""
 
@@ -381,13 +384,20 @@ class X86Machine:
             vn = self.world.new('v', 'val', 0, W - 1, defn=total - k * W)
             self.world.atoms[kn]['comp'] = vn
             v = ZPoly.var(vn)
-        self.world.events.append(dict(op='add', x=x, y=y, cin=cin, k=k, v=v, addr=ins.addr, text=ins.text, cont=ins.mnem != 'addq', flag='of' if ins.mnem == 'adoxq' else 'cf'))
+        self.world.events.append(dict(op='add', x=x, y=y, cin=cin, k=k, v=v, addr=ins.addr, text=ins.text, cont=ins.mnem in ('adcq', 'adcxq', 'adoxq', 'adcs', 'adc'), flag='of' if ins.mnem == 'adoxq' else 'cf'))
         st.events.append(len(self.world.events) - 1)
         return v, k
 
     def sub_(self, st, x, y, bin_, ins):
         total = x - y - bin_
         lo, hi = self.world.rng(total)
+        if bin_.is_zero() and y == ONE and self.world.rng(x) in ((0, 1), (0, 0), (1, 1)):
+            # x - 1 for a bit x: borrow is exactly 1 - x (the idiom that reloads a saved carry into the flag)
+            k = ONE - x
+            v = k * (W - 1)
+            self.world.events.append(dict(op='sub', x=x, y=y, cin=bin_, k=k, v=v, addr=ins.addr, text=ins.text, cont=False, flag='cf'))
+            st.events.append(len(self.world.events) - 1)
+            return v, k
         if lo >= 0:
             v = self.value(total)
             k = ZERO
@@ -397,11 +407,19 @@ class X86Machine:
             vn = self.world.new('v', 'val', 0, W - 1, defn=total + k * W)
             self.world.atoms[kn]['comp'] = vn
             v = ZPoly.var(vn)
-        self.world.events.append(dict(op='sub', x=x, y=y, cin=bin_, k=k, v=v, addr=ins.addr, text=ins.text, cont=ins.mnem == 'sbbq', flag='cf'))
+        self.world.events.append(dict(op='sub', x=x, y=y, cin=bin_, k=k, v=v, addr=ins.addr, text=ins.text, cont=ins.mnem in ('sbbq', 'sbcs', 'sbc'), flag='cf'))
         st.events.append(len(self.world.events) - 1)
         return v, k
 
     def mul_(self, x, y):
+        key = frozenset([x, y])
+        if key in self.world.products:
+            return self.world.products[key]
+        r = self.mul_new(x, y)
+        self.world.products[key] = r
+        return r
+
+    def mul_new(self, x, y):
         prod = x * y
         lo, hi = self.world.rng(prod)
         if hi < W:
@@ -486,13 +504,18 @@ class X86Machine:
         return out
 
     def bit_value(self, st, p):
+        """(value, None) when decided on this path, else (None, (atom, c0, c1)) with p == c0 + c1 * atom"""
         p = p.subs({a: ZPoly.const(v) for a, v in st.bits.items()})
         if p.is_const():
             return p.const_value(), None
-        a = p.single_atom()
-        if a is None or self.world.atoms[a]['kind'] not in ('carry', 'borrow'):
-            raise Unsupported('flag is not a single carry/borrow bit: %r' % p)
-        return None, a
+        ats = p.atoms()
+        if len(ats) == 1:
+            a = list(ats)[0]
+            c1 = p.t.get(((a, 1),), 0)
+            c0 = p.t.get((), 0)
+            if self.world.atoms[a]['kind'] in ('carry', 'borrow') and set(p.t) <= {(), ((a, 1),)} and c1 in (1, -1) and c0 + c1 in (0, 1) and c0 in (0, 1):
+                return None, (a, c0, c1)
+        raise Unsupported('flag is not a single carry/borrow bit: %r' % p)
 
     def split_cf(self, st, ins):
         f = self.need_flag(st.cf, 'CF', ins)
@@ -503,11 +526,12 @@ class X86Machine:
                                 (ins.addr, ins.text.split('\t', 1)[-1].strip(), val))
             return [(val, st)]
         out = []
+        (atom, c0, c1) = a
         for v in (0, 1):
             s2 = st.fork()
-            s2.bits[a] = v
+            s2.bits[atom] = v
             if self.consistent(s2):
-                out.append((v, s2))
+                out.append((c0 + c1 * v, s2))
         return out
 
     def split_zf(self, st, ins):
@@ -649,6 +673,200 @@ class X86Machine:
         raise Unsupported('instruction %s at %#x (%s)' % (mn, ins.addr, ins.text))
 
 
+# ---------------------------------------------------------------------------------------------- AArch64
+A64_ARGS = ['x%d' % i for i in range(8)]
+
+
+def a64_ops(ins):
+    return ins.ops
+
+
+class A64Machine(X86Machine):
+    """same algebra, AArch64 instruction subset of the shipped sources.  The carry flag C is kept as a polynomial; a
+    subtraction sets C = 1 - borrow."""
+    RET = 'x0'
+    ARCH = 'aarch64'
+
+    def run(self):
+        st = State()
+        for i in range(31):
+            st.regs['x%d' % i] = ('cs', 'x%d' % i)
+        for i, kind in enumerate(self.args):
+            st.regs[A64_ARGS[i]] = ('p', i, 0) if kind == 'ptr' else self.world.input('I%d' % i)
+        st.regs['sp'] = ('sp', 0)
+        self.go(st, self.entry)
+        return self.finals
+
+    def reg(self, st, r, ins):
+        if r in ('xzr', 'wzr'):
+            return ZERO
+        v = st.regs.get(r)
+        if isinstance(v, ZPoly):
+            return v
+        raise Unsupported('register %s does not hold a tracked integer at %#x (%s)' % (r, ins.addr, ins.text))
+
+    def imm_or_reg(self, st, op, ins):
+        if op.startswith('#'):
+            return ZPoly.const(int(op[1:], 0) % W)
+        return self.reg(st, op, ins)
+
+    def setreg(self, st, r, v):
+        if r not in ('xzr', 'wzr'):
+            st.regs[r] = v
+
+    def addr(self, st, ops, k, ins):
+        """decode the addressing operands starting at ops[k]; returns (region key or 'sp', offset, writeback register, new value)"""
+        op = ops[k]
+        m = re.match(r'^\[(\w+)(?:,\s*#(-?(?:0x)?[0-9a-f]+))?\](!?)$', op)
+        if m is None:
+            raise Unsupported('addressing mode %s at %#x' % (op, ins.addr))
+        base, off, pre = m.group(1), int(m.group(2), 0) if m.group(2) else 0, m.group(3) == '!'
+        post = None
+        if len(ops) > k + 1 and ops[k + 1].startswith('#'):
+            post = int(ops[k + 1][1:], 0)
+        bv = st.regs.get(base)
+        if not (isinstance(bv, tuple) and bv[0] in ('p', 'sp')):
+            raise Unsupported('memory access through an untracked pointer at %#x (%s)' % (ins.addr, ins.text))
+        cur = bv[2] if bv[0] == 'p' else bv[1]
+        eff = cur + off if post is None else cur
+        new = None
+        if pre:
+            new = cur + off
+        elif post is not None:
+            new = cur + post
+        if new is not None:
+            st.regs[base] = ('p', bv[1], new) if bv[0] == 'p' else ('sp', new)
+        if bv[0] == 'p':
+            return ('arg', bv[1]), eff
+        return ('sp',), eff
+
+    def mem_rd(self, st, where, off, ins):
+        if where[0] == 'sp':
+            return st.mem.get(('sp', off))
+        key = (self.region(where[1]), off)
+        if key in st.mem:
+            return st.mem[key]
+        return self.word_atom(where[1], off)
+
+    def mem_wr(self, st, where, off, val, ins):
+        if where[0] == 'sp':
+            st.mem[('sp', off)] = val
+            return
+        if off % 8:
+            raise Unsupported('unaligned store at %#x' % ins.addr)
+        if not isinstance(val, ZPoly):
+            raise Unsupported('store of a non-integer value at %#x' % ins.addr)
+        st.mem[(self.region(where[1]), off)] = val
+
+    def branch(self, st, mn, ins):
+        cc = mn.split('.', 1)[1]
+        conds = {'lo': ('cf', 0), 'cc': ('cf', 0), 'hs': ('cf', 1), 'cs': ('cf', 1), 'eq': ('zf', 1), 'ne': ('zf', 0), 'hi': ('hi', 1), 'ls': ('hi', 0)}
+        if cc not in conds:
+            raise Unsupported('conditional branch %s at %#x' % (mn, ins.addr))
+        what, sense = conds[cc]
+        out = []
+        if what == 'cf':
+            for val, s2 in self.split_cf(st, ins):
+                out.append((val == sense, s2))
+        elif what == 'zf':
+            for val, s2 in self.split_zf(st, ins):
+                out.append((val == sense, s2))
+        else:   # hi: C == 1 and Z == 0
+            for c, s2 in self.split_cf(st, ins):
+                if c == 0:
+                    out.append((sense == 0, s2))
+                    continue
+                for z, s3 in self.split_zf(s2, ins):
+                    out.append(((z == 0) == bool(sense), s3))
+        return out
+
+    def go(self, st, addr):
+        while True:
+            ins = self.insns.get(addr)
+            if ins is None:
+                raise Unsupported('control flow leaves the object at %#x' % addr)
+            nxt = self.order[self.idx[addr] + 1] if self.idx[addr] + 1 < len(self.order) else None
+            mn, ops = ins.mnem, ins.ops
+            if mn == 'ret':
+                self.finals.append(st)
+                if len(self.finals) > self.max_paths:
+                    raise Unsupported('too many paths')
+                return
+            if mn == 'b' or mn.startswith('b.'):
+                m = re.match(r'^(?:0x)?([0-9a-f]+)$', ops[0]) if ops else None
+                if m is None:
+                    raise Unsupported('indirect branch at %#x' % addr)
+                tgt = int(m.group(1), 16)
+                if tgt <= addr:
+                    raise Unsupported('backward branch at %#x' % addr)
+                if mn == 'b':
+                    addr = tgt
+                    continue
+                for (taken, s2) in self.branch(st, mn, ins):
+                    s2.path.append((addr, ins.text.split('\t', 1)[-1].strip(), taken))
+                    self.go(s2, tgt if taken else nxt)
+                return
+            self.step(st, ins)
+            addr = nxt
+
+    def step(self, st, ins):
+        mn, ops = ins.mnem, ins.ops
+        if mn in ('ldp', 'ldr'):
+            nreg = 2 if mn == 'ldp' else 1
+            where, off = self.addr(st, ops, nreg, ins)
+            for i in range(nreg):
+                v = self.mem_rd(st, where, off + 8 * i, ins)
+                self.setreg(st, ops[i], v)
+            return
+        if mn in ('stp', 'str'):
+            nreg = 2 if mn == 'stp' else 1
+            vals = [ZERO if ops[i] == 'xzr' else st.regs.get(ops[i]) for i in range(nreg)]
+            where, off = self.addr(st, ops, nreg, ins)
+            for i in range(nreg):
+                self.mem_wr(st, where, off + 8 * i, vals[i], ins)
+            return
+        if mn == 'mov':
+            self.setreg(st, ops[0], st.regs.get(ops[1]) if not ops[1].startswith('#') and ops[1] != 'xzr' else self.imm_or_reg(st, ops[1], ins))
+            return
+        if mn in ('adds', 'adcs', 'adc', 'add', 'cmn'):
+            if mn == 'cmn':
+                d, x, y = 'xzr', self.reg(st, ops[0], ins), self.imm_or_reg(st, ops[1], ins)
+            else:
+                d, x, y = ops[0], self.reg(st, ops[1], ins), self.imm_or_reg(st, ops[2], ins)
+            cin = self.need_flag(st.cf, 'C', ins) if mn in ('adcs', 'adc') else ZERO
+            v, k = self.add_(st, x, y, cin, ins)
+            self.setreg(st, d, v)
+            if mn in ('adds', 'adcs', 'cmn'):
+                st.cf, st.zf = k, v
+            elif not k.is_zero():
+                raise Unsupported('non-flag-setting addition that can wrap at %#x (%s)' % (ins.addr, ins.text))
+            return
+        if mn in ('subs', 'sbcs', 'cmp'):
+            if mn == 'cmp':
+                d, x, y = 'xzr', self.reg(st, ops[0], ins), self.imm_or_reg(st, ops[1], ins)
+            else:
+                d, x, y = ops[0], self.reg(st, ops[1], ins), self.imm_or_reg(st, ops[2], ins)
+            bin_ = (ONE - self.need_flag(st.cf, 'C', ins)) if mn == 'sbcs' else ZERO
+            v, k = self.sub_(st, x, y, bin_, ins)
+            self.setreg(st, d, v)
+            st.cf, st.zf = ONE - k, v
+            return
+        if mn in ('mul', 'umulh'):
+            lo, hi = self.mul_(self.reg(st, ops[1], ins), self.reg(st, ops[2], ins))
+            self.setreg(st, ops[0], lo if mn == 'mul' else hi)
+            return
+        if mn == 'cset':
+            c = self.need_flag(st.cf, 'C', ins)
+            if ops[1] in ('hs', 'cs'):
+                self.setreg(st, ops[0], c)
+            elif ops[1] in ('lo', 'cc'):
+                self.setreg(st, ops[0], ONE - c)
+            else:
+                raise Unsupported('cset %s at %#x' % (ops[1], ins.addr))
+            return
+        raise Unsupported('instruction %s at %#x (%s)' % (mn, ins.addr, ins.text))
+
+
 # ---------------------------------------------------------------------------------------------- path results and decisions
 class PathResult:
     def __init__(self, m, st, nres):
@@ -658,7 +876,7 @@ class PathResult:
         for i in range(nres):
             v = st.mem.get((m.region(0), 8 * i))
             self.res.append(v)
-        self.ret = st.regs.get('rax')
+        self.ret = st.regs.get(m.RET)
 
     def x(self, p):
         """normal form: expanded through the defining identities, path facts substituted"""
@@ -852,13 +1070,14 @@ def check_mod_reduce(pr, n, X, P, pwords, sign):
     return False, 'on the path %s the branch conditions do not determine the sign of the difference' % pr.describe()
 
 
-def check_montgomery(pr, n, m):
+def check_montgomery(pr, n, m, T=None, parg=2, invarg=3):
     """result == V - [V >= P] * P with 2^(64n) * V == T + U*P, U the quotient words u_i = lo(inv * t_i), low n words cancelled"""
     w = pr.w
-    T = big([m.world.input('A%d_%d' % (m.region(1), i)) for i in range(2 * n)])
-    pw = operand_words(m, 2, n)
+    if T is None:
+        T = big([m.world.input('A%d_%d' % (m.region(1), i)) for i in range(2 * n)])
+    pw = operand_words(m, parg, n)
     P = big(pw)
-    inv = m.world.input('I3')
+    inv = m.world.input('I%d' % invarg)
     if any(v is None for v in pr.res):
         return False, 'result word never stored'
     # quotient words: low halves / truncated products whose factors are (inv, running word), in creation order
@@ -932,6 +1151,9 @@ SPECS = {
     'bigint_768_multiply': (('ptr', 'ptr', 'ptr'), 12, 'mul', [{}, {2: 1}]),
     'bigint_768_square': (('ptr', 'ptr'), 12, 'sqr', [{}]),
     'fpbase_384_montgomery_reduce': (('ptr', 'ptr', 'ptr', 'int'), 6, 'redc', [{}]),
+    # fused multiply / square + Montgomery reduction (AArch64)
+    'fpbase_384_multiply': (('ptr', 'ptr', 'ptr', 'ptr', 'int'), 6, 'mulredc', [{}, {0: 1}, {0: 2}, {0: 1, 2: 1}]),
+    'fpbase_384_square': (('ptr', 'ptr', 'ptr', 'int'), 6, 'sqrredc', [{}, {0: 1}]),
 }
 
 
@@ -942,7 +1164,7 @@ def spec_for(name):
     return None, None
 
 
-def analyse_routine(insns, order, entry, name):
+def analyse_routine(insns, order, entry, name, arch='x86_64'):
     """returns list of (pattern, ok, message, npaths, notes)"""
     suf, sp = spec_for(name)
     if sp is None:
@@ -950,7 +1172,7 @@ def analyse_routine(insns, order, entry, name):
     kinds, nres, which, patterns = sp
     out = []
     for pat in patterns:
-        m = X86Machine(insns, order, entry, kinds, alias=pat)
+        m = (X86Machine if arch == 'x86_64' else A64Machine)(insns, order, entry, kinds, alias=pat)
         finals = m.run()
         msgs = []
         notes = []
@@ -958,7 +1180,7 @@ def analyse_routine(insns, order, entry, name):
             pr = PathResult(m, st, nres)
             notes += st.notes
             A = big(operand_words(m, 1, 6))
-            if which in ('add', 'sub', 'fpadd', 'fpsub', 'mul'):
+            if which in ('add', 'sub', 'fpadd', 'fpsub', 'mul', 'mulredc'):
                 B = big(operand_words(m, 2, 6))
             if which == 'add':
                 ok, why = check_exact(pr, 6, A + B, ret_weight=1, what='a + b')
@@ -985,6 +1207,10 @@ def analyse_routine(insns, order, entry, name):
                 ok, why = check_mod_reduce(pr, 6, A - B, big(pw), pw, -1)
             elif which == 'redc':
                 ok, why = check_montgomery(pr, 6, m)
+            elif which == 'mulredc':
+                ok, why = check_montgomery(pr, 6, m, T=A * B, parg=3, invarg=4)
+            elif which == 'sqrredc':
+                ok, why = check_montgomery(pr, 6, m, T=A * A, parg=2, invarg=3)
             if not ok:
                 msgs.append(why)
         out.append((pat, not msgs, msgs, len(finals), notes, len(m.world.atoms)))
@@ -996,7 +1222,7 @@ def rule_wordalg(ctx, cfg, outdir, rule='R-WORDALG'):
     """every x86-64 multi-precision routine computes its specification polynomial on every path and aliasing pattern"""
     from . import buildmodel as bm
     arch = bm.configs()[cfg]['arch']
-    if arch != 'x86_64' or not bm.configs()[cfg]['asm']:
+    if arch not in ('x86_64', 'aarch64') or not bm.configs()[cfg]['asm']:
         return 0
     tbl = asmcheck.build_tables(cfg, outdir)
     n = 0
@@ -1006,7 +1232,7 @@ def rule_wordalg(ctx, cfg, outdir, rule='R-WORDALG'):
             continue
         fn, insns, order, addr = tbl[name]
         try:
-            res = analyse_routine(insns, order, addr, name)
+            res = analyse_routine(insns, order, addr, name, arch)
         except Unsupported as e:
             raise bm.AnalysisBroken('R-WORDALG cannot model %s: %s' % (name, e))
         for (pat, ok, msgs, npaths, notes, natoms) in res:
@@ -1027,6 +1253,8 @@ SPEC_TEXT = {
     'fpbase_384_multiply2': 'res == 2a - [2a >= p] * p, the case decided by the path facts',
     'bigint_768_multiply': 'res == a * b (all 12 words)',
     'bigint_768_square': 'res == a * a (all 12 words)',
+    'fpbase_384_multiply': '2^384 * V == a*b + U * p (quotient words cancel the low half), res == V - [V >= p] * p, the case decided by the path facts',
+    'fpbase_384_square': '2^384 * V == a*a + U * p (quotient words cancel the low half), res == V - [V >= p] * p, the case decided by the path facts',
     'fpbase_384_montgomery_reduce': '2^384 * V == T + U * p with u_i = lo(inv * t_i) cancelling the low words (inv * p[0] == -1 mod 2^64), '
                                     'res == V - [V >= p] * p, the case decided by the path facts',
 }
